@@ -1,7 +1,7 @@
 /-
   Props/C07.lean — property C07: the polynomial Hamiltonian is the Taylor expansion of the true CR3BP Hamiltonian in local
   coordinates, and the local→synodic map conjugates the flows.
-  `Gen.C07` (regenerated on every run): the local→synodic / synodic→local maps traced for L1, L2, L3 and the CR3BP energy and
+  `Gen.C07` (regenerated on every run): the local→synodic / synodic→local maps traced for L1..L5 and the CR3BP energy and
   vector field *composed* with them (variables 0..5 = x y z p_x p_y p_z, 6 = γ, 7 = μ); the recurrence coefficients, wiring and
   assembly of the Hamiltonian builders, obtained by executing the current builders on an exact polynomial algebra.
   `Gen.C04` supplies the traced `c_n`.  Measured, not proved: the remainder exponents (harness).
@@ -127,6 +127,132 @@ theorem origin_maps_to_point (g mu : ℝ) :
   · simp [phi3, eval, ρ]; ring
   · intro i h1 h6
     interval_cases i <;> simp [phi1, phi2, phi3, eval, ρ]
+
+/-! ### triangular points L4, L5 (traced maps, variables 0..5 = x y z p_x p_y p_z, 7 = μ) -/
+
+/-- the float `np.sqrt(3)/2` both the maps and the builder use as y-offset of the primaries -/
+noncomputable def triH : ℝ := (3900231685776981 : ℝ) / 4503599627370496
+
+/-- Hamiltonian vector field of `H = E∘φ` at `ρ` in the local canonical variables of the triangular point L4 (no scaling: γ = 1) -/
+noncomputable def hamVec4 (ρ : ℕ → ℝ) : ℕ → ℝ
+  | 0 => eval ρ (D 3 energyLoc4)
+  | 1 => eval ρ (D 4 energyLoc4)
+  | 2 => eval ρ (D 5 energyLoc4)
+  | 3 => -(eval ρ (D 0 energyLoc4))
+  | 4 => -(eval ρ (D 1 energyLoc4))
+  | 5 => -(eval ρ (D 2 energyLoc4))
+  | _ => 0
+
+set_option maxHeartbeats 1600000 in
+/-- **local2synodic_conjugates_flows (L4)**: the traced triangular map `φ` pushes the Hamiltonian vector field of `E∘φ` (canonical
+local structure) forward to the CR3BP vector field evaluated at `φ(c)`: `Dφ · X_H = f∘φ`, for every local point and every `μ`, away
+from the primaries. -/
+theorem local2synodic_conjugates_flows_L4 (ρ : ℕ → ℝ) (h0 : 0 < eval ρ lq4_0) (h1 : 0 < eval ρ lq4_1)
+    (i : ℕ) (hi : i < 6) :
+    DT ρ (hamVec4 ρ) (phi4 i) = eval ρ (accelLoc4 i) := by
+  have hr0 : Real.sqrt (eval ρ lq4_0) ≠ 0 := (Real.sqrt_pos.mpr h0).ne'
+  have hr1 : Real.sqrt (eval ρ lq4_1) ≠ 0 := (Real.sqrt_pos.mpr h1).ne'
+  interval_cases i <;>
+    simp only [phi4, accelLoc4, energyLoc4, hamVec4, DT, D, eval, if_true, if_false, reduceIte, Nat.reduceEqDiff, Nat.reduceSub] <;>
+    (generalize Real.sqrt (eval ρ lq4_0) = r0 at *
+     generalize Real.sqrt (eval ρ lq4_1) = r1 at *
+     simp only [lq4_0, lq4_1, D, eval, if_true, if_false, reduceIte, Nat.reduceEqDiff, Nat.reduceSub]
+     try field_simp
+     try ring)
+
+/-- **local_synodic_inverse (L4)**: the traced synodic→local map undoes the traced local→synodic map exactly -/
+theorem local_synodic_inverse_L4 (ρ : ℕ → ℝ) (i : ℕ) (hi : i < 6) : eval ρ (back4 i) = ρ i := by
+  interval_cases i <;> simp only [back4, eval] <;> (try field_simp) <;> (try ring)
+
+/-- **energyLoc4_closed_form**: the exact energy in the library's local coordinates at L4 is the function whose Taylor expansion
+the triangular builder documents: `½|p|² + y p_x − x p_y + (½−μ)x + d_y y − (1−μ)/|r − d_S| − μ/|r − d_J|` plus a constant, with
+`d_S = (½, d_y)`, `d_J = (−½, d_y)`, `d_y = +triH` (the float `√3/2`) — the offsets the builder passes (`tri_builder_traced`). -/
+theorem energyLoc4_closed_form (ρ : ℕ → ℝ) :
+    eval ρ energyLoc4 = 1 / 2 * (ρ 3 ^ 2 + ρ 4 ^ 2 + ρ 5 ^ 2) + ρ 1 * ρ 3 - ρ 0 * ρ 4 + (1 / 2 - ρ 7) * ρ 0 + triH * ρ 1
+      - (1 - ρ 7) / Real.sqrt ((ρ 0 - 1 / 2) ^ 2 + (ρ 1 - triH) ^ 2 + ρ 2 ^ 2)
+      - ρ 7 / Real.sqrt ((ρ 0 + 1 / 2) ^ 2 + (ρ 1 - triH) ^ 2 + ρ 2 ^ 2)
+      - (1 / 2 * (ρ 7 - 1 / 2) ^ 2 + 1 / 2 * triH ^ 2 + 1 / 2 * (1 - ρ 7) * ρ 7) := by
+  have e0 : eval ρ lq4_0 = (ρ 0 - 1 / 2) ^ 2 + (ρ 1 - triH) ^ 2 + ρ 2 ^ 2 := by
+    simp only [lq4_0, eval, triH]; push_cast; ring
+  have e1 : eval ρ lq4_1 = (ρ 0 + 1 / 2) ^ 2 + (ρ 1 - triH) ^ 2 + ρ 2 ^ 2 := by
+    simp only [lq4_1, eval, triH]; push_cast; ring
+  simp only [energyLoc4, eval]
+  rw [e0, e1]
+  simp only [triH]; push_cast; ring
+
+/-- Hamiltonian vector field of `H = E∘φ` at `ρ` in the local canonical variables of the triangular point L5 (no scaling: γ = 1) -/
+noncomputable def hamVec5 (ρ : ℕ → ℝ) : ℕ → ℝ
+  | 0 => eval ρ (D 3 energyLoc5)
+  | 1 => eval ρ (D 4 energyLoc5)
+  | 2 => eval ρ (D 5 energyLoc5)
+  | 3 => -(eval ρ (D 0 energyLoc5))
+  | 4 => -(eval ρ (D 1 energyLoc5))
+  | 5 => -(eval ρ (D 2 energyLoc5))
+  | _ => 0
+
+set_option maxHeartbeats 1600000 in
+/-- **local2synodic_conjugates_flows (L5)**: the traced triangular map `φ` pushes the Hamiltonian vector field of `E∘φ` (canonical
+local structure) forward to the CR3BP vector field evaluated at `φ(c)`: `Dφ · X_H = f∘φ`, for every local point and every `μ`, away
+from the primaries. -/
+theorem local2synodic_conjugates_flows_L5 (ρ : ℕ → ℝ) (h0 : 0 < eval ρ lq5_0) (h1 : 0 < eval ρ lq5_1)
+    (i : ℕ) (hi : i < 6) :
+    DT ρ (hamVec5 ρ) (phi5 i) = eval ρ (accelLoc5 i) := by
+  have hr0 : Real.sqrt (eval ρ lq5_0) ≠ 0 := (Real.sqrt_pos.mpr h0).ne'
+  have hr1 : Real.sqrt (eval ρ lq5_1) ≠ 0 := (Real.sqrt_pos.mpr h1).ne'
+  interval_cases i <;>
+    simp only [phi5, accelLoc5, energyLoc5, hamVec5, DT, D, eval, if_true, if_false, reduceIte, Nat.reduceEqDiff, Nat.reduceSub] <;>
+    (generalize Real.sqrt (eval ρ lq5_0) = r0 at *
+     generalize Real.sqrt (eval ρ lq5_1) = r1 at *
+     simp only [lq5_0, lq5_1, D, eval, if_true, if_false, reduceIte, Nat.reduceEqDiff, Nat.reduceSub]
+     try field_simp
+     try ring)
+
+/-- **local_synodic_inverse (L5)**: the traced synodic→local map undoes the traced local→synodic map exactly -/
+theorem local_synodic_inverse_L5 (ρ : ℕ → ℝ) (i : ℕ) (hi : i < 6) : eval ρ (back5 i) = ρ i := by
+  interval_cases i <;> simp only [back5, eval] <;> (try field_simp) <;> (try ring)
+
+/-- **energyLoc5_closed_form**: the exact energy in the library's local coordinates at L5 is the function whose Taylor expansion
+the triangular builder documents: `½|p|² + y p_x − x p_y + (½−μ)x + d_y y − (1−μ)/|r − d_S| − μ/|r − d_J|` plus a constant, with
+`d_S = (½, d_y)`, `d_J = (−½, d_y)`, `d_y = −triH` (the float `√3/2`) — the offsets the builder passes (`tri_builder_traced`). -/
+theorem energyLoc5_closed_form (ρ : ℕ → ℝ) :
+    eval ρ energyLoc5 = 1 / 2 * (ρ 3 ^ 2 + ρ 4 ^ 2 + ρ 5 ^ 2) + ρ 1 * ρ 3 - ρ 0 * ρ 4 + (1 / 2 - ρ 7) * ρ 0 + (-triH) * ρ 1
+      - (1 - ρ 7) / Real.sqrt ((ρ 0 - 1 / 2) ^ 2 + (ρ 1 - (-triH)) ^ 2 + ρ 2 ^ 2)
+      - ρ 7 / Real.sqrt ((ρ 0 + 1 / 2) ^ 2 + (ρ 1 - (-triH)) ^ 2 + ρ 2 ^ 2)
+      - (1 / 2 * (ρ 7 - 1 / 2) ^ 2 + 1 / 2 * triH ^ 2 + 1 / 2 * (1 - ρ 7) * ρ 7) := by
+  have e0 : eval ρ lq5_0 = (ρ 0 - 1 / 2) ^ 2 + (ρ 1 - (-triH)) ^ 2 + ρ 2 ^ 2 := by
+    simp only [lq5_0, eval, triH]; push_cast; ring
+  have e1 : eval ρ lq5_1 = (ρ 0 + 1 / 2) ^ 2 + (ρ 1 - (-triH)) ^ 2 + ρ 2 ^ 2 := by
+    simp only [lq5_1, eval, triH]; push_cast; ring
+  simp only [energyLoc5, eval]
+  rw [e0, e1]
+  simp only [triH]; push_cast; ring
+
+/-- **tri_builder_traced**: the triangular builder, executed on exact polynomials: the recurrence coefficients are Legendre's
+`(2m−1)/m`, `(m−1)/m` (float64 roundings) for m = 2..10; `A_0 = 1`, `A_1 = d·r`, `A_m = c1 (d·r) A_{m−1} − c2 ρ² A_{m−2}` exactly; each
+`A_n` homogeneous of degree n; the Hamiltonian is assembled as documented (both points, two mass-parameter markers); the offsets handed to
+`_build_A_polynomials` are `(±½, ±triH)` — the constants of the traced maps (`energyLoc4/5_closed_form`) — and `|d|² = 1` up to
+float rounding, so that `1 − 2 d·r + ρ² = |r − d|²` and `legendre_generating_identity` (with `x := d·r`, a ring homomorphism) makes
+`Σ_{n≤N} A_n` the degree-N Taylor polynomial of `1/|r − d|`. -/
+theorem tri_builder_traced :
+    (triAB.map (·.1) = [2, 3, 4, 5, 6, 7, 8, 9, 10]) ∧
+    (triAB.all fun (n, a, b) =>
+      let k : ℚ := (n : ℚ)
+      decide (|((a.1 : ℚ) / (a.2 : ℚ)) - (2 * k - 1) / k| ≤ 1 / 2 ^ 50) &&
+      decide (|((b.1 : ℚ) / (b.2 : ℚ)) - (k - 1) / k| ≤ 1 / 2 ^ 50)) = true ∧
+    triWiringOK = true ∧ triShapeOK = true ∧ triAssemblyOK4 = true ∧ triAssemblyOK5 = true ∧
+    triOffsets4 = [((1, 2), (3900231685776981, 4503599627370496)), ((-1, 2), (3900231685776981, 4503599627370496))] ∧
+    triOffsets5 = [((1, 2), (-3900231685776981, 4503599627370496)), ((-1, 2), (-3900231685776981, 4503599627370496))] ∧
+    |((1 : ℚ) / 2) ^ 2 + ((3900231685776981 : ℚ) / 4503599627370496) ^ 2 - 1| ≤ 1 / 2 ^ 50 := by
+  refine ⟨by decide, by decide +kernel, by decide, by decide, by decide, by decide, by decide, by decide, by decide +kernel⟩
+
+/-- the distance identity used above: for any offset `d` in the plane, `|r − d|² = |d|² − 2 d·r + ρ²` -/
+theorem tri_distance (x y z dx dy : ℝ) :
+    (x - dx) ^ 2 + (y - dy) ^ 2 + z ^ 2 = (dx ^ 2 + dy ^ 2) - 2 * (dx * x + dy * y) + (x ^ 2 + y ^ 2 + z ^ 2) := by ring
+
+/-- the degree-1 terms of the triangular Hamiltonian cancel (L4/L5 are equilibria of the expanded Hamiltonian): the explicit linear part
+`(½−μ)x + d_y y` is minus the degree-1 part `−(1−μ)A₁^S − μA₁^J` of the potential -/
+theorem tri_linear_terms_cancel (x y mu dy : ℝ) :
+    (1 / 2 - mu) * x + dy * y - (1 - mu) * (1 / 2 * x + dy * y) - mu * (-(1 / 2) * x + dy * y) = 0 := by ring
 
 /-! ### sentence 1: the expansion -/
 
